@@ -207,7 +207,7 @@ class IpAnonymizer(_BaseIpAnonymizer):
             ]
             # Make sure the prefixes are also preserved for preserved blocks, so
             # anonymized addresses outside the block don't accidentally collide
-            preserve_prefixes.extend(preserve_addresses)
+            preserve_prefixes = list(preserve_prefixes) + list(preserve_addresses)
 
         # Preserve relevant prefixes
         for subnet_str in preserve_prefixes:
